@@ -6,6 +6,8 @@ import (
 
 	"github.com/srwiley/scanx"
 	"github.com/tdewolff/canvas"
+	"golang.org/x/image/draw"
+	"golang.org/x/image/math/f64"
 )
 
 // C14-H5: rendering "leaves the canvas, its paths ... unchanged": RenderPath with an arbitrary
@@ -223,4 +225,41 @@ func VH_C14_fill_and_stroke() {
 		vAssert("C14.fillstroke.later_draw_covers", at(4, 4) == over && at(6, 6) == over && at(2, 6) == over)
 		vAssert("C14.fillstroke.later_draw_only_where_it_paints", at(11, 11) == fillC && at(10, 15) == strokeC)
 	}
+}
+
+// C14-H11 ("leaves the canvas ... unchanged", images): RenderImage must not modify the image it is
+// given - it belongs to the caller's canvas and is rendered again on the next call - in the linear,
+// sRGB and gamma colour spaces, with and without a rotation (a rotation makes the renderer work on a
+// padded copy, a translation or scaling on the image itself).  2x2 image with mid-range colours;
+// the scaler (x/image/draw) is cut out of the symbolic run.
+func vhC14NoTransform(k *draw.Kernel, dst draw.Image, s2d f64.Aff3, src image.Image, sr image.Rectangle, op draw.Op, opts *draw.Options) {
+}
+
+func VH_C14_image_unchanged() {
+	vStub("(*golang.org/x/image/draw.Kernel).Transform", vhC14NoTransform)
+	var cs canvas.ColorSpace
+	switch vChoose(0, 2) {
+	case 0:
+		cs = canvas.LinearColorSpace{}
+	case 1:
+		cs = canvas.SRGBColorSpace{}
+	default:
+		cs = canvas.GammaColorSpace{Gamma: 2.2}
+	}
+	img := image.NewRGBA(image.Rect(0, 0, 2, 2))
+	pix := []color.RGBA{{128, 64, 200, 255}, {30, 180, 90, 255}, {60, 60, 60, 120}, {255, 255, 255, 255}}
+	for i, c := range pix {
+		img.SetRGBA(i%2, i/2, c)
+	}
+	m := canvas.Identity.Translate(2, 3)
+	if vChoose(0, 1) == 1 {
+		m = m.Rotate(30)
+	}
+	r := New(10, 10, canvas.DPMM(1), cs)
+	r.RenderImage(img, m)
+	same := true
+	for i, c := range pix {
+		same = same && img.RGBAAt(i%2, i/2) == c
+	}
+	vAssert("C14.image.caller_image_unchanged", same)
 }
